@@ -152,6 +152,9 @@ fn single_cases(t: &str, is_bool: bool, is_num: bool) -> Vec<Case> {
     c("tuple access out of bounds", "pub fn main(x: TT) -> TT { let t = (x, true); t.0 }", "pub fn main(x: TT) -> TT { let t = (x, true); t.2 }");
     c("struct literal with a missing field", "struct W { f: TT, g: bool }\npub fn main(x: TT) -> TT { let w = W { f: x, g: true }; w.f }", "struct W { f: TT, g: bool }\npub fn main(x: TT) -> TT { let w = W { f: x }; w.f }");
     c("struct literal with an extra field", "struct W { f: TT, g: bool }\npub fn main(x: TT) -> TT { let w = W { f: x, g: true }; w.f }", "struct W { f: TT, g: bool }\npub fn main(x: TT) -> TT { let w = W { f: x, g: true, h: true }; w.f }");
+    c("struct literal naming a field twice (the other one missing)", "struct W { f: TT, g: bool }\npub fn main(x: TT) -> TT { let w = W { f: x, g: true }; w.f }", "struct W { f: TT, g: bool }\npub fn main(x: TT) -> TT { let w = W { f: x, f: x }; w.f }");
+    c("struct literal naming a field twice", "struct W { f: TT, g: bool }\npub fn main(x: TT) -> TT { let w = W { f: x, g: true }; w.f }", "struct W { f: TT, g: bool }\npub fn main(x: TT) -> TT { let w = W { f: x, g: true, f: x }; w.f }");
+    c("struct pattern naming a field twice", "struct W { f: TT, g: bool }\npub fn main(x: TT) -> TT { let w = W { f: x, g: true }; let W { f, g } = w; f }", "struct W { f: TT, g: bool }\npub fn main(x: TT) -> TT { let w = W { f: x, g: true }; let W { f, f } = w; f }");
     c("unknown struct field access", "struct W { f: TT, g: bool }\npub fn main(x: TT) -> TT { let w = W { f: x, g: true }; w.f }", "struct W { f: TT, g: bool }\npub fn main(x: TT) -> TT { let w = W { f: x, g: true }; w.h }");
     c("unknown struct", "struct W { f: TT, g: bool }\npub fn main(x: TT) -> TT { let w = W { f: x, g: true }; w.f }", "struct W { f: TT, g: bool }\npub fn main(x: TT) -> TT { let w = X { f: x, g: true }; x }");
     c("struct pattern with an unknown field", "struct W { f: TT, g: bool }\npub fn main(x: TT) -> TT { let w = W { f: x, g: true }; let W { f, g } = w; f }", "struct W { f: TT, g: bool }\npub fn main(x: TT) -> TT { let w = W { f: x, g: true }; let W { f, h } = w; f }");
